@@ -92,6 +92,9 @@ def run(ctx):
         cases.append(dict(version=v, level=l, mask=m, fit=False, calls=[(data, rnd.choice([0, 20]))], tag="grid"))
     cases += [dict(version=v, level=rnd.randrange(4), mask=None, fit=True, calls=[(gens.payload(rnd, "mixed", rnd.randrange(200)), 20)],
                    tag="auto") for v in ([None] * 20 + [7, 10, 14, 21])]
+    for c in cases[::3]:
+        if c["version"] is not None:      # re-configured object: compiled under other settings first, same data, no add_data/clear in between
+            c["prehistory"] = dict(style="resettings", version=rnd.choice([1, 2, 6, 7, 14]), level=rnd.randrange(4), mask=rnd.choice([None, 2]), data=b"")
     recs = enc.run_cases(cases, jobs=8 if tier == "thorough" else 1)
     recs = enc.attach_model_and_spec(recs, want_model=False, want_spec=True)
     for r in recs:
